@@ -28,7 +28,8 @@
    APID per tag: a function, injective within the namespace).                                                    *)
 EXTENDS Integers, Sequences, FiniteSets, TLC
 
-Max(S) == CHOOSE x \in S : \A y \in S : y <= x
+\* (TLC tries the candidates of a CHOOSE in ascending order: Min is linear this way, so Max goes through Min)
+Max(S) == 0 - (CHOOSE x \in {0 - y : y \in S} : \A z \in {0 - y : y \in S} : x <= z)
 Min(S) == CHOOSE x \in S : \A y \in S : x <= y
 MaxI(a, b) == IF a < b THEN b ELSE a
 Range(fn) == {fn[x] : x \in DOMAIN fn}
@@ -107,29 +108,38 @@ AscDataLen(l) == IF l.k = "can" THEN l.dlc ELSE IF l.k = "canfd" THEN l.len ELSE
 AscUpper(l) == l.k \in {"can", "canfd"} /\ l.up /\ HasHexLetter(l.id)
 AscNoTrail(l) == l.k \in {"can", "canfd"} /\ AscDataLen(l) > 0 /\ l.trail = 0
 
-AscExpLine(fh, f, i) ==
+\* per-file index (built once per file): positions of date lines, negative-offset frames, frames with upper-case id, and
+\* for every channel the first line that refers to it (frame or bus mapping)
+AscIndex(fh) ==
+  LET L == fh.lines
+      frames == {j \in 1..Len(L) : AscIsFrame(L[j])}
+      yields == {j \in 1..Len(L) : AscYields(L[j])}
+  IN [dates |-> {j \in 1..Len(L) : L[j].k = "date"},
+      negs |-> {j \in frames : AscIsNeg(L[j])},
+      uppers |-> {j \in frames : AscUpper(L[j])},
+      bind |-> TLCEval([c \in {L[j].ch : j \in yields} |-> Min({j \in yields : L[j].ch = c})])]
+
+AscExpLine(fh, f, ix, i) ==
   LET L == fh.lines
       l == L[i]
-      D == {j \in 1..(i - 1) : L[j].k = "date"}
+      D == {j \in ix.dates : j < i}
       dated == D # {}
-      dl == IF dated THEN Max(D) ELSE 0
+      dl == IF dated THEN Max(D) ELSE 0                                   \* the last date line before this line
       date == IF dated THEN AscDate(L[dl]) ELSE TZero
       off == IF fh.hasref /\ dated /\ TLess(fh.ref, date) THEN DmsFloor(TSub(date, fh.ref)) ELSE 0
       ts == IF AscIsFrame(l) THEN AscTs(l) ELSE TZero
-      sect == {j \in (dl + 1)..i : AscIsFrame(L[j])}
-      N == {j \in sect : AscIsNeg(L[j])}
+      N == {j \in ix.negs : j > dl /\ j <= i}                             \* negative offsets of this date section so far
       fneg == AscTs(L[Min(N)])
       tsneg == TLess(ts, TZero)
       \* a dropped frame (finding: upper-case id) earlier in the section makes "first negative offset" / the channel binding ambiguous
-      amb == \E j \in sect : j < i /\ AscUpper(L[j]) /\ AscIsNeg(L[j])
+      amb == \E j \in ix.uppers : j > dl /\ j < i /\ AscIsNeg(L[j])
       dmsAny == tsneg /\ off = 0 /\ (amb \/ TLess(ts, fneg))
       dms == IF ~tsneg THEN {off + DmsFloor(ts)}
              ELSE IF off > 0 THEN {MaxI(0, off + DmsFloor(ts)), MaxI(0, off + DmsCeil(ts))}
              ELSE IF dmsAny THEN {} ELSE {DmsFloor(TSub(ts, fneg))}
-      R == {j \in 1..i : AscYields(L[j]) /\ L[j].ch = l.ch}
-      B == Min(R)
+      B == ix.bind[l.ch]                                                  \* the line that binds this channel to an ECU
       key == IF L[B].k = "map" THEN "N:" \o Str(L[B].name) ELSE "F" \o ToString(f) \o "C" \o ToString(l.ch)
-      keyAny == (l.k = "map" /\ B # i) \/ (\E j \in R : j < i /\ AscUpper(L[j]))
+      keyAny == (l.k = "map" /\ B # i) \/ (\E j \in ix.uppers : j < i /\ L[j].ch = l.ch)
       rxm == IF dated THEN "abs" ELSE "rel"
       rx == TAdd(date, ts)
       amode == (IF tsneg THEN "neg" ELSE "") \o (IF off > 0 THEN "ref" ELSE "")
@@ -162,22 +172,32 @@ LcMode(ref, l) == LET t == LcT(ref, l).s IN
                   IF t < LcJan1(ref) THEN "prev" ELSE IF t < LcJan1(ref) + 43200 THEN "up" ELSE "abs"
 LcUpTs(ref, l) == TSub(LcT(ref, l), [s |-> LcJan1(ref), us |-> 0])
 
-LcExpLine(fh, f, i) ==
+\* per-file index: tag text and time rule of every record, the first record of every tag, the first absolute-mode
+\* record (j0) and the time stamp it starts from (base0: the last up-time before it, else 10000 s)
+LcIndex(fh) ==
+  LET L == fh.lines
+      ref == LcRefDate(fh.mod)
+      recs == {j \in 1..Len(L) : LcIsRec(L[j])}
+      tagstr == TLCEval([j \in recs |-> Str(L[j].tag)])
+      mode == TLCEval([j \in recs |-> IF L[j].k = "mono" THEN "mono" ELSE LcMode(ref, L[j])])
+      abs == {j \in recs : mode[j] \in {"abs", "prev"}}
+      j0 == IF abs = {} THEN 0 ELSE Min(abs)
+      ups == {j \in recs : j < j0 /\ mode[j] = "up"}
+  IN [ref |-> ref, tagstr |-> tagstr, mode |-> mode, j0 |-> j0,
+      base0 |-> IF ups = {} THEN [s |-> 10000, us |-> 0] ELSE LcUpTs(ref, L[Max(ups)]),
+      firstOf |-> TLCEval([t \in {tagstr[j] : j \in recs} |-> Min({j \in recs : tagstr[j] = t})])]
+
+LcExpLine(fh, f, ix, i) ==
   LET L == fh.lines
       l == L[i]
-      ref == LcRefDate(fh.mod)
-      tag == Str(l.tag)
-      first == ~\E j \in 1..(i - 1) : LcIsRec(L[j]) /\ Str(L[j].tag) = tag
-      mode == IF l.k = "mono" THEN "mono" ELSE LcMode(ref, l)
-      TT(j) == LcT(ref, L[j])
-      Abs == {j \in 1..i : L[j].k = "tt" /\ LcMode(ref, L[j]) \in {"abs", "prev"}}
-      j0 == Min(Abs)
-      Ups == {j \in 1..(j0 - 1) : L[j].k = "tt" /\ LcMode(ref, L[j]) = "up"}
-      base0 == IF Ups = {} THEN [s |-> 10000, us |-> 0] ELSE LcUpTs(ref, L[Max(Ups)])
+      ref == ix.ref
+      tag == ix.tagstr[i]
+      first == ix.firstOf[tag] = i
+      mode == ix.mode[i]
       ts == IF mode = "mono" THEN LcMonoTs(l)
             ELSE IF mode = "up" THEN LcUpTs(ref, l)
-            ELSE TSat(TAdd(TSub(TT(i), TT(j0)), base0))
-      rx == IF mode \in {"mono", "up"} THEN TAdd(fh.mod, ts) ELSE TT(i)
+            ELSE TSat(TAdd(TSub(LcT(ref, l), LcT(ref, L[ix.j0])), ix.base0))
+      rx == IF mode \in {"mono", "up"} THEN TAdd(fh.mod, ts) ELSE LcT(ref, l)
       prev == mode = "prev"                                                     \* finding: a record of the previous year
       log == ExpRec("log", mode, "abs", rx, FALSE, {DmsFloor(ts)}, tag, FALSE, 0, <<>>, LcText(l), LcMtin(l.lvl), "", FALSE, FALSE, prev)
       ann == ExpRec("ann", mode, "abs", rx, FALSE, {DmsFloor(ts)}, tag, FALSE, 0, <<>>, "", 2, tag, FALSE, FALSE, prev)
@@ -188,24 +208,34 @@ LcExpLine(fh, f, i) ==
 GlMtin(s) == IF s = "INF" THEN 4 ELSE IF s = "WRN" THEN 3 ELSE IF s = "ERR" THEN 2 ELSE IF s = "VER" THEN 6
              ELSE IF s \in {"FAT", "SEV"} THEN 1 ELSE 5
 GlT(l) == [s |-> Epoch(l.y, l.mo, l.d, l.hh, l.mi, l.ss), us |-> l.ms * 1000]
-GlExpLine(fh, f, i) ==
+GlIndex(fh) ==
+  LET L == fh.lines
+      recs == {j \in 1..Len(L) : L[j].k = "rec"}
+      tagstr == TLCEval([j \in recs |-> Str(L[j].tag)])
+  IN [tagstr |-> tagstr, r0 |-> IF recs = {} THEN 0 ELSE Min(recs),
+      firstOf |-> TLCEval([t \in {tagstr[j] : j \in recs} |-> Min({j \in recs : tagstr[j] = t})])]
+GlExpLine(fh, f, ix, i) ==
   LET L == fh.lines
       l == L[i]
-      tag == Str(l.tag)
-      first == ~\E j \in 1..(i - 1) : L[j].k = "rec" /\ Str(L[j].tag) = tag
-      R == {j \in 1..i : L[j].k = "rec"}
-      ts == TSat(TSub(GlT(l), GlT(L[Min(R)])))
+      tag == ix.tagstr[i]
+      first == ix.firstOf[tag] = i
+      ts == TSat(TSub(GlT(l), GlT(L[ix.r0])))                              \* relative to the first record of the file
       log == ExpRec("log", "", "abs", GlT(l), FALSE, {DmsFloor(ts)}, tag, FALSE, 0, <<>>, l.msg, GlMtin(l.lvl), "", FALSE, FALSE, FALSE)
       ann == ExpRec("ann", "", "abs", GlT(l), FALSE, {DmsFloor(ts)}, tag, FALSE, 0, <<>>, "", 2, tag, FALSE, FALSE, FALSE)
   IN IF l.k # "rec" THEN <<>> ELSE IF first /\ tag # "" THEN <<ann, log>> ELSE <<log>>
 
 -----------------------------------------------------------------------------
-ExpLine(kind, fh, f, i) == IF kind = "asc" THEN AscExpLine(fh, f, i)
-                           ELSE IF kind = "logcat" THEN LcExpLine(fh, f, i) ELSE GlExpLine(fh, f, i)
-RECURSIVE ExpFrom(_, _, _, _)
-ExpFrom(kind, fh, f, i) == IF i > Len(fh.lines) THEN <<>> ELSE ExpLine(kind, fh, f, i) \o ExpFrom(kind, fh, f, i + 1)
+ExpLine(kind, fh, f, ix, i) == IF kind = "asc" THEN AscExpLine(fh, f, ix, i)
+                               ELSE IF kind = "logcat" THEN LcExpLine(fh, f, ix, i) ELSE GlExpLine(fh, f, ix, i)
+\* (divide and conquer keeps the recursion shallow and the concatenations cheap)
+RECURSIVE ExpRange(_, _, _, _, _, _)
+ExpRange(kind, fh, f, ix, a, b) ==
+  IF a > b THEN <<>> ELSE IF a = b THEN ExpLine(kind, fh, f, ix, a)
+  ELSE LET m == (a + b) \div 2 IN ExpRange(kind, fh, f, ix, a, m) \o ExpRange(kind, fh, f, ix, m + 1, b)
 \* every record line yields its message(s), in file order; all other lines yield nothing
-Exp(kind, fh, f) == ExpFrom(kind, fh, f, 1)
+Exp(kind, fh, f) ==
+  LET ix == IF kind = "asc" THEN AscIndex(fh) ELSE IF kind = "logcat" THEN LcIndex(fh) ELSE GlIndex(fh)
+  IN ExpRange(kind, fh, f, ix, 1, Len(fh.lines))
 
 \* fixed identifiers
 FixedEcu(kind, nsmod) == IF kind = "logcat" THEN "LC" \o TwoDigits(nsmod) ELSE "GL" \o TwoDigits(nsmod)
